@@ -18,7 +18,9 @@ The two composition assumptions -- totals add over Einsums, model usage == simul
 peak -- are themselves checked exhaustively by C04/C13 and C06.
 Only the Pareto-optimal points (energy, latency, usage) of each chunk are kept; that
 is enough for optimum and front comparisons.
-Results are cached under /verif/.cache/<hash of /repo/accelforge + reference sources>/.
+Results are memoised for the duration of ONE ./check invocation only (mc.treehash.cache_root:
+a directory mc.cli creates per run and removes afterwards), so that a check's phases and
+its forked workers share a front while nothing is ever reused from an earlier run.
 """
 
 from __future__ import annotations
